@@ -786,3 +786,127 @@ Print Assumptions C03_wiring_StripeMeasures_table_proportions.
 
 End Wiring_C03.
 (* ---- WIRING-APPENDIX:END ---- *)
+
+(* ---- COMPARABLE-APPENDIX:BEGIN (generated by tools/gen_bases_lemmas.py; do not edit) ---- *)
+(* ==== GenAgree (comparable counts): what matrix/measure.py SAYS NOW ==== *)
+(* Appended by tools/gen_bases_lemmas.py (statements generated from the lemmas of Proofs/GenAgreeComparable.v).
+   SecondOrderMeasures.column_comparable_counts / row_comparable_counts are the count blocks that may be summed
+   across the rows / across the columns: the numerators of the margin proportions and the scale medians read
+   them, and their `is_defined` decides whether a 1-D margin exists.  Gen/BasesSrc.v is rewritten from the source
+   on every check by harness/translate/x_bases.py ([beval], Base/BasesExp.v); DT.ARRAY_TYPES is read from
+   enums.py (Gen/Tables.v [tbl_DT_sets]).  Defined iff the type of the COLUMNS (resp. ROWS) dimension is not an
+   array type; then the four blocks are [sum_blocks] of the weighted counts with diff_rows_nan (resp.
+   diff_cols_nan), otherwise `blocks` raises ([WErr]). *)
+From Coq Require String.
+From CC Require Base.BasesExp Model.Subtotals Model.Proportions Gen.BasesSrc Gen.Tables
+     Proofs.GenAgreeMeasTac Proofs.GenAgreeBasesTac Proofs.GenAgreeComparable.
+Section GenAgreeComparable_C03.   (* scopes and imports below end with the section *)
+Import Coq.Strings.String CC.Base.BasesExp CC.Model.Subtotals CC.Model.Proportions CC.Gen.BasesSrc CC.Gen.Tables
+       CC.Proofs.GenAgreeMeasTac CC.Proofs.GenAgreeBasesTac CC.Proofs.GenAgreeComparable.
+Import Coq.Lists.List.ListNotations CC.Base.XQ CC.Base.ListX.
+Local Close Scope Q_scope.
+Local Open Scope string_scope.
+Local Open Scope nat_scope.
+
+(* column_comparable_counts: blocks [0][0] [0][1] [1][0] [1][1], is_defined *)
+Theorem C03_gen_ColumnComparableCounts :
+  (match src_ColumnComparableCounts_blocks_00, tbl_DT_sets with
+  | Some e, Some sets => forall nr nc rsubs csubs cubem cubeflag dt,
+      (is_array_type (dt 1) = false ->
+       bagrees_mat (beval (benv_dims nr nc rsubs csubs cubem cubeflag dt sets) e) nr nc
+         (mnth (b_base (sum_blocks (cubem "weighted_cube_counts" "counts") nr nc rsubs csubs false true)))) /\
+      (is_array_type (dt 1) = true -> beval (benv_dims nr nc rsubs csubs cubem cubeflag dt sets) e = WErr)
+  | _, _ => True
+  end) /\
+  (match src_ColumnComparableCounts_blocks_01, tbl_DT_sets with
+  | Some e, Some sets => forall nr nc rsubs csubs cubem cubeflag dt,
+      (is_array_type (dt 1) = false ->
+       bagrees_mat (beval (benv_dims nr nc rsubs csubs cubem cubeflag dt sets) e) nr (List.length csubs)
+         (mnth (b_cols (sum_blocks (cubem "weighted_cube_counts" "counts") nr nc rsubs csubs false true)))) /\
+      (is_array_type (dt 1) = true -> beval (benv_dims nr nc rsubs csubs cubem cubeflag dt sets) e = WErr)
+  | _, _ => True
+  end) /\
+  (match src_ColumnComparableCounts_blocks_10, tbl_DT_sets with
+  | Some e, Some sets => forall nr nc rsubs csubs cubem cubeflag dt,
+      (is_array_type (dt 1) = false ->
+       bagrees_mat (beval (benv_dims nr nc rsubs csubs cubem cubeflag dt sets) e) (List.length rsubs) nc
+         (mnth (b_rows (sum_blocks (cubem "weighted_cube_counts" "counts") nr nc rsubs csubs false true)))) /\
+      (is_array_type (dt 1) = true -> beval (benv_dims nr nc rsubs csubs cubem cubeflag dt sets) e = WErr)
+  | _, _ => True
+  end) /\
+  (match src_ColumnComparableCounts_blocks_11, tbl_DT_sets with
+  | Some e, Some sets => forall nr nc rsubs csubs cubem cubeflag dt,
+      (is_array_type (dt 1) = false ->
+       bagrees_mat (beval (benv_dims nr nc rsubs csubs cubem cubeflag dt sets) e) (List.length rsubs) (List.length csubs)
+         (mnth (b_inter (sum_blocks (cubem "weighted_cube_counts" "counts") nr nc rsubs csubs false true)))) /\
+      (is_array_type (dt 1) = true -> beval (benv_dims nr nc rsubs csubs cubem cubeflag dt sets) e = WErr)
+  | _, _ => True
+  end) /\
+  (match src_ColumnComparableCounts_is_defined, tbl_DT_sets with
+  | Some e, Some sets => forall nr nc rsubs csubs cubem cubeflag dt,
+      bceval (benv_dims nr nc rsubs csubs cubem cubeflag dt sets) e = Some (negb (is_array_type (dt 1)))
+  | _, _ => True
+  end).
+Proof. exact (conj gen_ColumnComparableCounts_blocks_00 (conj gen_ColumnComparableCounts_blocks_01 (conj gen_ColumnComparableCounts_blocks_10 (conj gen_ColumnComparableCounts_blocks_11 gen_ColumnComparableCounts_is_defined)))). Qed.
+Print Assumptions C03_gen_ColumnComparableCounts.
+
+(* row_comparable_counts: blocks [0][0] [0][1] [1][0] [1][1], is_defined *)
+Theorem C03_gen_RowComparableCounts :
+  (match src_RowComparableCounts_blocks_00, tbl_DT_sets with
+  | Some e, Some sets => forall nr nc rsubs csubs cubem cubeflag dt,
+      (is_array_type (dt 0) = false ->
+       bagrees_mat (beval (benv_dims nr nc rsubs csubs cubem cubeflag dt sets) e) nr nc
+         (mnth (b_base (sum_blocks (cubem "weighted_cube_counts" "counts") nr nc rsubs csubs true false)))) /\
+      (is_array_type (dt 0) = true -> beval (benv_dims nr nc rsubs csubs cubem cubeflag dt sets) e = WErr)
+  | _, _ => True
+  end) /\
+  (match src_RowComparableCounts_blocks_01, tbl_DT_sets with
+  | Some e, Some sets => forall nr nc rsubs csubs cubem cubeflag dt,
+      (is_array_type (dt 0) = false ->
+       bagrees_mat (beval (benv_dims nr nc rsubs csubs cubem cubeflag dt sets) e) nr (List.length csubs)
+         (mnth (b_cols (sum_blocks (cubem "weighted_cube_counts" "counts") nr nc rsubs csubs true false)))) /\
+      (is_array_type (dt 0) = true -> beval (benv_dims nr nc rsubs csubs cubem cubeflag dt sets) e = WErr)
+  | _, _ => True
+  end) /\
+  (match src_RowComparableCounts_blocks_10, tbl_DT_sets with
+  | Some e, Some sets => forall nr nc rsubs csubs cubem cubeflag dt,
+      (is_array_type (dt 0) = false ->
+       bagrees_mat (beval (benv_dims nr nc rsubs csubs cubem cubeflag dt sets) e) (List.length rsubs) nc
+         (mnth (b_rows (sum_blocks (cubem "weighted_cube_counts" "counts") nr nc rsubs csubs true false)))) /\
+      (is_array_type (dt 0) = true -> beval (benv_dims nr nc rsubs csubs cubem cubeflag dt sets) e = WErr)
+  | _, _ => True
+  end) /\
+  (match src_RowComparableCounts_blocks_11, tbl_DT_sets with
+  | Some e, Some sets => forall nr nc rsubs csubs cubem cubeflag dt,
+      (is_array_type (dt 0) = false ->
+       bagrees_mat (beval (benv_dims nr nc rsubs csubs cubem cubeflag dt sets) e) (List.length rsubs) (List.length csubs)
+         (mnth (b_inter (sum_blocks (cubem "weighted_cube_counts" "counts") nr nc rsubs csubs true false)))) /\
+      (is_array_type (dt 0) = true -> beval (benv_dims nr nc rsubs csubs cubem cubeflag dt sets) e = WErr)
+  | _, _ => True
+  end) /\
+  (match src_RowComparableCounts_is_defined, tbl_DT_sets with
+  | Some e, Some sets => forall nr nc rsubs csubs cubem cubeflag dt,
+      bceval (benv_dims nr nc rsubs csubs cubem cubeflag dt sets) e = Some (negb (is_array_type (dt 0)))
+  | _, _ => True
+  end).
+Proof. exact (conj gen_RowComparableCounts_blocks_00 (conj gen_RowComparableCounts_blocks_01 (conj gen_RowComparableCounts_blocks_10 (conj gen_RowComparableCounts_blocks_11 gen_RowComparableCounts_is_defined)))). Qed.
+Print Assumptions C03_gen_RowComparableCounts.
+
+(* non-vacuity: counts [[1 2]], the column difference 1 - 0: comparable ACROSS THE ROWS (column-comparable)
+   it is the number 1; the row-comparable block is NaN there; with an MR columns dimension the
+   column-comparable blocks raise *)
+Example C03_gen_comparable_example :
+  let cubem := fun (c a : string) => [[Fin 1%Q; Fin 2%Q]] in
+  let E dt := benv_dims 1 2 [] [mkSub [1] [0]] cubem (fun _ _ => false) dt
+                        (match tbl_DT_sets with Some s => s | None => [] end) in
+  match src_ColumnComparableCounts_blocks_01, src_RowComparableCounts_blocks_01, tbl_DT_sets with
+  | Some c, Some r, Some _ =>
+      bshape_of (beval (E (fun _ => "CAT")) c) = [1; 1] /\ bcell (beval (E (fun _ => "CAT")) c) 0 0 =x= Fin 1%Q /\
+      bcell (beval (E (fun _ => "CAT")) r) 0 0 = NaN /\
+      is_err (beval (E (fun d => match d with 1 => "MR_SUBVAR" | _ => "CAT" end)) c) = true
+  | _, _, _ => True
+  end.
+Proof. vm_compute. first [exact I | repeat split; reflexivity]. Qed.
+
+End GenAgreeComparable_C03.
+(* ---- COMPARABLE-APPENDIX:END ---- *)
